@@ -289,12 +289,9 @@ func (p *TracerProvider) Shutdown(ctx context.Context) error {
 
 	var retErr error
 	for _, sps := range p.getSpanProcessors() {
-		select {
-		case <-ctx.Done():
-			return ctx.Err()
-		default:
-		}
-
+		// Every processor is told to shut down even when ctx is already
+		// done: each honors ctx itself, and returning early here would leave
+		// the provider marked as shut down with its processors still live.
 		var err error
 		sps.state.Do(func() {
 			err = sps.sp.Shutdown(ctx)
